@@ -12,7 +12,7 @@ THOROUGH = dict(worlds=256, runs=1200, seconds=30)
 RULE = ("seeded blackbox-free circuits x node n (input / internal / output / functionally constant) x endpoint "
         "subsets; distinct = canonical net + node + endpoints; non-trivial = n's function depends on >= 2 startpoints")
 PROBES = ["sp=1", "sp=2", "sp=3", "sp=4", "sp=5", "sp=7", "sp=8", "sensitivity_0", "n_is_input", "n_is_output",
-          "unsat_steps>=2", "sensitize_none", "sensitize_witness", "endpoints_subset", "influence", "sensitivity", "influence_list_form", "same_endpoints_object_for_all_calls"]
+          "unsat_steps>=2", "sensitize_none", "sensitize_witness", "endpoints_subset", "influence", "sensitivity", "influence_list_form", "same_endpoints_object_for_all_calls", "selection_as_iterator"]
 ASSUMPTIONS = ["<= 11 startpoints in the cone of n for the transforms and sensitivity(), <= 6 for influence / avg_sensitivity", "exact mode only (approx=False); the supergates=True variant of "
                "influence is not judged",
                "startpoints named like generated nodes (sat, c0_/c1_/dif_<n>, orig_, inv_, pc_, sen_out_, dif_out_) are avoided: the transforms refuse them with ValueError"]
@@ -59,6 +59,7 @@ def gen(rng, tier):
         # several nodes analysed against the same endpoint selection; nodes whose cone reaches only some of them
         picks += rng.sample(names, min(len(names), 2))
     return {"net": net, "nodes": picks, "endpoints": eps, "assume": rng.random() < 0.3, "eps_as_set": rng.random() < 0.6,
+            "ns_iter": rng.random() < 0.25,
             "peer": {"seed": rng.getrandbits(32), "policy": rng.choice(peers.SOLVER_POLICIES)}}
 
 
@@ -172,7 +173,16 @@ def run(case, ctx):
         (n1, (wi, wa)), = multi_expect.items()
         ctx.probe("influence_list_of_one")
         sig1 = {"list_form": "one"}
-        a1 = ctx.call("C11.avg_sensitivity_raises", sig1, cg.props.avg_sensitivity, c, [n1], approx=False)
+        if case.get("ns_iter"):
+            # the selection handed over as a one-shot iterable (a generator expression at the call site)
+            ctx.probe("selection_as_iterator")
+            sig1 = {"list_form": "one", "as": "iterator"}
+            tw, st = getattr(ctx, "twice", False), getattr(ctx, "stale", False)
+            ctx.twice = ctx.stale = False
+            a1 = ctx.call("C11.avg_sensitivity_raises", sig1, cg.props.avg_sensitivity, c, iter([n1]), approx=False)
+            ctx.twice, ctx.stale = tw, st
+        else:
+            a1 = ctx.call("C11.avg_sensitivity_raises", sig1, cg.props.avg_sensitivity, c, [n1], approx=False)
         if isinstance(a1, dict):
             a1 = a1.get(n1)
         if not isinstance(a1, (int, float)) or abs(a1 - wa) > 1e-9:
@@ -182,8 +192,17 @@ def run(case, ctx):
         ns = sorted(multi_expect)
         ctx.probe("influence_list_form")
         sigm = {"list_form": True}
-        allinf = ctx.call("C11.influence_raises", sigm, cg.props.influence, c, list(ns), approx=False)
-        allavg = ctx.call("C11.avg_sensitivity_raises", sigm, cg.props.avg_sensitivity, c, list(ns), approx=False)
+        if case.get("ns_iter"):
+            ctx.probe("selection_as_iterator")
+            sigm = {"list_form": True, "as": "iterator"}
+            tw, st = getattr(ctx, "twice", False), getattr(ctx, "stale", False)
+            ctx.twice = ctx.stale = False
+            allinf = ctx.call("C11.influence_raises", sigm, cg.props.influence, c, iter(list(ns)), approx=False)
+            allavg = ctx.call("C11.avg_sensitivity_raises", sigm, cg.props.avg_sensitivity, c, iter(list(ns)), approx=False)
+            ctx.twice, ctx.stale = tw, st
+        else:
+            allinf = ctx.call("C11.influence_raises", sigm, cg.props.influence, c, list(ns), approx=False)
+            allavg = ctx.call("C11.avg_sensitivity_raises", sigm, cg.props.avg_sensitivity, c, list(ns), approx=False)
         if not isinstance(allinf, dict) or set(allinf) != set(ns) or not isinstance(allavg, dict) or set(allavg) != set(ns):
             ctx.violate("C11.influence_keys", f"influence/avg_sensitivity({ns}) returned {allinf!r} / {allavg!r}", sigm)
         for n2 in ns:
@@ -302,6 +321,8 @@ def shrink(case):
         yield dict(case, endpoints=None)
     if case["assume"]:
         yield dict(case, assume=False)
+    if case.get("ns_iter"):
+        yield dict(case, ns_iter=False)
     for net in G.shrink_net(case["net"]):
         if net is not None and ref.is_lint_clean(net) and not ref.is_cyclic(net):
             nn = [n for n in case["nodes"] if n in net["nodes"]]
